@@ -594,7 +594,8 @@ def r11_raman_contraction(ctx):
     n = 0
 
     def is_cr(e):
-        return isinstance(e, ast.Name) and e.id.endswith('cr')
+        # the solver's Raman matrices are named after fiber.cr (cr, co_cr, cnt_cr, and their renamed copies): recognised by that token
+        return isinstance(e, ast.Name) and any(t.lower().endswith('cr') for t in e.id.split('_') if t)
 
     def is_crT(e):
         return (isinstance(e, ast.Attribute) and e.attr == 'T' and is_cr(e.value)) or \
